@@ -35,6 +35,42 @@ func genPostings(t *rapid.T, max int) ledger.Postings {
 	return ps
 }
 
+// genFocused draws a request that revolves around one (account, asset) pair with a small, possibly
+// negative starting balance: zero-amount uses, credits and spends of comparable size in every order.
+// (The uniform generator almost never lines up "overdrawn account used for 0, credited, then spent".)
+func genFocused(t *rapid.T) (ledger.Postings, map[string]map[string]*big.Int) {
+	focus := gen.NonWorldAccount().Draw(t, "focusAccount")
+	asset := gen.Asset().Draw(t, "focusAsset")
+	bal := map[string]map[string]*big.Int{}
+	for _, a := range gen.NonWorld {
+		bal[a] = map[string]*big.Int{}
+		if rapid.IntRange(0, 2).Draw(t, "otherFunded") == 0 {
+			bal[a][asset] = big.NewInt(int64(rapid.IntRange(0, 6).Draw(t, "otherBalance")))
+		}
+	}
+	if v := rapid.IntRange(-6, 6).Draw(t, "focusBalance"); v != 0 || rapid.Bool().Draw(t, "explicitZero") {
+		bal[focus][asset] = big.NewInt(int64(v))
+	}
+	n := rapid.IntRange(2, 8).Draw(t, "nPostings")
+	small := []int64{0, 0, 1, 2, 3, 5, 6}
+	var ps ledger.Postings
+	for i := 0; i < n; i++ {
+		amt := big.NewInt(rapid.SampledFrom(small).Draw(t, "amount"))
+		other := gen.Account().Draw(t, "other")
+		switch rapid.IntRange(0, 4).Draw(t, "role") {
+		case 0, 1:
+			ps = append(ps, ledger.Posting{Source: focus, Destination: other, Asset: asset, Amount: amt})
+		case 2:
+			ps = append(ps, ledger.Posting{Source: "world", Destination: focus, Asset: asset, Amount: amt})
+		case 3:
+			ps = append(ps, ledger.Posting{Source: other, Destination: focus, Asset: asset, Amount: amt})
+		default:
+			ps = append(ps, ledger.Posting{Source: other, Destination: gen.Account().Draw(t, "dst"), Asset: gen.Asset().Draw(t, "asset"), Amount: amt})
+		}
+	}
+	return ps, bal
+}
+
 func genBalances(t *rapid.T) map[string]map[string]*big.Int {
 	out := map[string]map[string]*big.Int{}
 	for _, a := range gen.NonWorld {
@@ -77,7 +113,7 @@ func refPostingsOutcome(ps ledger.Postings, bal map[string]map[string]*big.Int, 
 	return false, dependsOnEarlier
 }
 
-const ruleC25 = "postings lists (1-20 postings over 8 accounts incl. world, 3 assets, repeated accounts, source==destination, zero/edge amounts) x generated starting balances (absent, negative, positive) x force; through bulking.TransactionRequest.ToCore -> TxToScriptData -> compile -> MachineNumscriptRuntimeAdapter.Execute; non-trivial = success that depends on an earlier posting funding a later source, or an insufficient-funds failure; distinct = by postings+balances+force"
+const ruleC25 = "postings lists (1-20 postings over 8 accounts incl. world, 3 assets, repeated accounts, source==destination, zero/edge amounts) x generated starting balances (absent, negative, positive) x force; half of the cases revolve around one (account, asset) pair with a small possibly negative balance, zero-amount uses, credits and spends of comparable size; through bulking.TransactionRequest.ToCore -> TxToScriptData -> compile -> MachineNumscriptRuntimeAdapter.Execute; non-trivial = success that depends on an earlier posting funding a later source, or an insufficient-funds failure; distinct = by postings+balances+force"
 
 func TestC25(t *testing.T) {
 	st := stats.New("C25", "exploration", ruleC25,
@@ -86,8 +122,14 @@ func TestC25(t *testing.T) {
 	n := stats.N(8000, 30000)
 	st.Set("requested_checks", n)
 	stats.Check(t, n, 25, func(rt *rapid.T) {
-		ps := genPostings(rt, 20)
-		bal := genBalances(rt)
+		var ps ledger.Postings
+		var bal map[string]map[string]*big.Int
+		if rapid.Bool().Draw(rt, "focused") {
+			ps, bal = genFocused(rt)
+		} else {
+			ps = genPostings(rt, 20)
+			bal = genBalances(rt)
+		}
 		force := rapid.IntRange(0, 3).Draw(rt, "force") == 0
 		req := bulking.TransactionRequest{Postings: ps, Force: force}
 		core, err := req.ToCore()
